@@ -44,7 +44,7 @@ func (t *XMPPTransport) Connect() (string, error) {
 		return "", NewConnError(err, false)
 	}
 
-	t.closeChan = make(chan stanza.StreamClosePacket)
+	t.closeChan = make(chan stanza.StreamClosePacket, 1)
 	t.readWriter = newStreamLogger(t.conn, t.logFile)
 	t.decoder = xml.NewDecoder(bufio.NewReaderSize(t.readWriter, maxPacketSize))
 	t.decoder.CharsetReader = t.Config.CharsetReader
@@ -160,5 +160,9 @@ func (t *XMPPTransport) LogTraffic(logFile io.Writer) {
 }
 
 func (t *XMPPTransport) ReceivedStreamClose() {
-	t.closeChan <- stanza.StreamClosePacket{}
+	// Do not block the receiver when nobody is closing the transport (the server closed the stream first)
+	select {
+	case t.closeChan <- stanza.StreamClosePacket{}:
+	default:
+	}
 }
